@@ -75,13 +75,13 @@ def realise_step(j):
     return KINDS[j]
 
 
-# (step 5 is an item step whose literal is None, step 13 a path part that is None: a step may carry any
+# (step 5 is an item step whose literal is None, step 3 a path part that is None: a step may carry any
 # literal, also the one the wildcard steps use as their placeholder argument)
-KINDS = {1: 'a', 2: T.b, 3: T['c'], 4: 0, 5: T[None], 6: 'e.f', 7: T[1], 8: 'g', 9: T.h,
-         11: 'x', 12: T['y'], 13: None, 99: 'other'}
+KINDS = {1: 'a', 2: T.b, 3: None, 4: 0, 5: T[None], 6: 'e.f', 7: T[1], 8: 'g', 9: T.h,
+         11: 'x', 12: T['y'], 13: T['c'], 99: 'other'}
 # what items() must list for each step, written down independently of the library
-EXPECT = {1: ('P', 'a'), 2: ('.', 'b'), 3: ('[', 'c'), 4: ('P', 0), 5: ('[', None), 6: ('P', 'e.f'), 7: ('[', 1),
-          8: ('P', 'g'), 9: ('.', 'h'), 11: ('P', 'x'), 12: ('[', 'y'), 13: ('P', None), 99: ('P', 'other')}
+EXPECT = {1: ('P', 'a'), 2: ('.', 'b'), 3: ('P', None), 4: ('P', 0), 5: ('[', None), 6: ('P', 'e.f'), 7: ('[', 1),
+          8: ('P', 'g'), 9: ('.', 'h'), 11: ('P', 'x'), 12: ('[', 'y'), 13: ('[', 'c'), 99: ('P', 'other')}
 
 
 def mk_path(steps):
